@@ -73,7 +73,8 @@ def gen_enumerated(rng, outcomes, v2):
     for o in outcomes[:-1]:
         dps = [g.dp() for _ in range(rng.randint(1, 3))]
         steps.append({'dps': dps, 'by': dps[-1]['run'], 'gap': rng.choice([30, 31, 45, 600]),
-                      'script': list(POINT_SCRIPTS[o])})
+                      'script': list(POINT_SCRIPTS[o]),
+                      'during': [g.dp() for _ in range(rng.randint(1, 2))] if rng.random() < 0.3 else []})
     last = [g.dp() for _ in range(rng.randint(0 if steps else 1, 2))]
     steps.append({'dps': last, 'by': None, 'gap': 0, 'script': []})
     return {'v2': v2, 'n_runs': n_runs, 'prior': None, 'start': stamp(rng), 'load_gap': 0, 'load_script': ['ok'],
@@ -131,11 +132,13 @@ def gen_random(rng, rich=False, max_points=5):
             statuses = {'4xx': rng.choice([400, 401, 404, 422, 499]), '5xx': rng.choice([500, 502, 503, 599, 399, 301])}
         steps.append({'dps': dps, 'by': dps[-1]['run'] if dps else rng.randrange(n_runs),
                       'gap': rng.choice([0, 1, 29, 30, 30, 31, 60, 600]), 'script': gen_script(rng),
-                      'statuses': statuses})
+                      'statuses': statuses,
+                      'during': [g.dp(rich=rich) for _ in range(rng.randint(1, 3))] if rng.random() < 0.35 else []})
     steps.append({'dps': [g.dp(rich=rich) for _ in range(rng.choice([0, 1, 2]))], 'by': None, 'gap': 0, 'script': []})
     return {'v2': v2, 'n_runs': n_runs, 'prior': prior, 'start': stamp(rng),
             'load_gap': rng.choice([0, 0, 29, 30, 100]), 'load_script': gen_script(rng),
-            'steps': steps, 'close_script': gen_script(rng)}
+            'steps': steps, 'close_script': gen_script(rng),
+            'close_during': [g.dp(rich=rich)] if rng.random() < 0.1 else []}
 
 
 # ------------------------------------------------------------------ running one scenario on the real code
@@ -143,6 +146,21 @@ def dp_event(d):
     return {'k': 'persist', 'run': d['run'],
             'dp': {'in': d['in'], 'it': d['it'],
                    'ms': [{'c': c, 'u': u, 'v': lib.frac(v)} for (c, u, v) in d['ms']]}}
+
+
+def add_point_events(events, timeline, ev, point, fl):
+    """one transmission point; the data points another thread handed over while its request was in flight"""
+    if fl.error:
+        point['in_flight_error'] = fl.error
+    if fl.fired and not fl.blocked:
+        ev['during'] = [{'run': d['run'], 'dp': dp_event(d)['dp']} for d in fl.dps]
+    events.append(ev)
+    timeline.append(('point', point))
+    if fl.fired:
+        for d in fl.dps:
+            if fl.blocked:      # the persisting thread had to wait for the request to end: a plain persist afterwards
+                events.append(dp_event(d))
+            timeline.append(('dp', dict(d, in_flight=True)))
 
 
 def flat_of(d):
@@ -209,15 +227,21 @@ def execute(ck, sc, idx, server=None, refused_port=None):
                 w.clock += st['gap']
                 now = int(w.clock)
                 w.begin_point('step%d' % i, st['script'], st.get('statuses'))
+                fl = D.InFlight(s, st.get('during') or [])
+                if fl.dps:
+                    w.hook = fl
                 s.completed(st['by'])
                 w.end_point()
-                events.append({'k': 'send', 'now': now, 'script': st['script']})
-                timeline.append(('point', w.points[-1]))
+                fl.finish()
+                add_point_events(events, timeline, {'k': 'send', 'now': now, 'script': st['script']}, w.points[-1], fl)
             w.begin_point('close', sc['close_script'])
+            fl = D.InFlight(s, sc.get('close_during') or [])
+            if fl.dps:
+                w.hook = fl
             s.close()
             w.end_point()
-            events.append({'k': 'close', 'script': sc['close_script']})
-            timeline.append(('point', w.points[-1]))
+            fl.finish()
+            add_point_events(events, timeline, {'k': 'close', 'script': sc['close_script']}, w.points[-1], fl)
             # probe: what is still held?  (a harness-only extra `close()` of the back end)
             probe_script = ['refused'] * 6 if refused_port else ['ok']
             w.begin_point('probe', probe_script)
@@ -237,8 +261,8 @@ def execute(ck, sc, idx, server=None, refused_port=None):
     start_expected = sc['prior']['start'] if sc.get('prior') and sc['prior']['dps'] else sc['start']
     op = {'op': 'c17.session', 'v2': sc['v2'], 't0': t0, 'start': start_expected, 'env': env_expected,
           'source': src_expected, 'events': events}
-    if os.environ.get('C17_MODEL_PINNED'):   # development aid: compare against the model of the pinned tree
-        op['pinned'] = True
+    if os.environ.get('C17_MODEL_VARIANT'):   # development aid: compare against the model of an earlier tree
+        op['variant'] = os.environ['C17_MODEL_VARIANT']
     # ---- canonical implementation observation
     reqs = []
     for kind, p in timeline:
@@ -295,12 +319,15 @@ def oracle(ck, sc, book, inp):
     def fail(clause, detail, **sig):
         ck.oracle_fail(clause, inp, detail, signature=dict({'clause': clause}, **sig))
 
+    before_close = None
     for kind, x in book['timeline']:
         if kind == 'dp':
             pending.append(x)
             fed_all.append(x)
             continue
         p = x
+        if p['label'] == 'close':
+            before_close = len(fed_all)      # what another thread hands over during the close itself comes later
         if not p['attempts']:
             continue
         dec = p['decoded']
@@ -310,8 +337,13 @@ def oracle(ck, sc, book, inp):
             missing = [m for m in want if m not in got]
             extra = [m for m in got if m not in want]
             lost_after_failure = [m for m in missing if any(m in flat_of(d) for d in failed_before)]
+            lost_in_flight = [m for m in missing if any(m in flat_of(d) for d in pending if d.get('in_flight'))]
             resent_acked = [m for m in extra if m in acked]
-            if lost_after_failure:
+            if lost_in_flight and not lost_after_failure:
+                fail('kept_while_in_flight', {'point': p['label'], 'n_missing': len(lost_in_flight),
+                                              'handed_over_while_a_request_was_in_flight_and_never_sent':
+                                              [repr(m) for m in lost_in_flight[:4]]}, api='v2' if sc['v2'] else 'v1')
+            elif lost_after_failure:
                 fail('kept_on_failure', {'point': p['label'], 'missing_from_next_request': [repr(m) for m in lost_after_failure[:4]],
                                          'n_missing': len(lost_after_failure)}, api='v2' if sc['v2'] else 'v1')
             elif resent_acked:
@@ -335,6 +367,10 @@ def oracle(ck, sc, book, inp):
             fail('payload_carries_env_source', {'payload_env': dec['env'], 'file_env': env,
                                                 'payload_source': dec['source'], 'file_source': src})
             n += 1
+        if p.get('in_flight_error'):
+            fail('kept_while_in_flight', {'point': p['label'], 'persisting_thread_raised': p['in_flight_error']},
+                 exception=p['in_flight_error'].split(':')[0])
+            n += 1
         if len(p['attempts']) > 5:
             fail('retry_bound', {'attempts': len(p['attempts'])})
             n += 1
@@ -353,7 +389,7 @@ def oracle(ck, sc, book, inp):
     # final transmission succeeded -> every data point acknowledged exactly once
     close_pt = [x for k, x in book['timeline'] if k == 'point' and x['label'] == 'close'][0]
     if (close_pt['attempts'] and close_pt['success']):
-        want_all = sorted([m for d in fed_all[:len(fed_all)] for m in flat_of(d)], key=repr)
+        want_all = sorted([m for d in fed_all[:before_close] for m in flat_of(d)], key=repr)
         if sorted(acked_upto_close(book), key=repr) != want_all:
             fail('final_ok_all_once', {'acked': len(acked_upto_close(book)), 'handed_over': len(want_all)})
             n += 1
@@ -399,6 +435,9 @@ def check_batch(ck, scenarios, server=None, refused_port=None, tag=''):
             ck.count('v2:null-padding')
         if sc.get('prior'):
             ck.count('reloaded-data')
+        n_fl = sum(1 for k, x in book['timeline'] if k == 'dp' and x.get('in_flight'))
+        if n_fl:
+            ck.count('data points handed over while a request is in flight', n_fl)
         ck.case(nontrivial_key=('s', json.dumps(sc, sort_keys=True)) if (had_failure_then_more or padded) else None,
                 sample={'v2': sc['v2'], 'points': [(x['label'], [a['kind'] for a in x['attempts']])
                                                    for k, x in book['timeline'] if k == 'point']})
